@@ -29,6 +29,7 @@ type PropSpec struct {
 	Assumptions       []string `json:"assumptions"`
 	NotDecided        []string `json:"not_decided"`
 	Mutants           []string `json:"mutants"` // selftest patches expected to be caught (thorough)
+	Benign            []string `json:"benign"`  // selftest patches that keep the property (refactorings): must NOT raise an alarm (thorough)
 	SMTLemmas         []SMTLemma   `json:"smt_lemmas"`   // lemmas over spec functions stated directly in SMT-LIB (theories the contract language has no syntax for: bit-vectors with floating point)
 	BoundedRuns       []BoundedRun `json:"bounded_runs"` // bounded stand-ins run in the thorough tier (never counted as proved)
 }
@@ -467,6 +468,21 @@ func checkMain(args []string) int {
 				violations++
 				rp := writeReplay(verifDir, prop, "selftest-"+m, res)
 				fmt.Printf("SELFTEST mutant %s not caught\n", m)
+				fmt.Printf("VIOLATION property=%s replay=%s no-failing-input-found\n", prop, rp)
+			}
+		}
+		for _, m := range ps.Benign {
+			res := runMutant(verifDir, repo, prop, filepath.Join("selftest", "benign", m))
+			res["kind"] = "benign change (must not alarm)"
+			caught, _ := res["caught"].(bool)
+			stale, _ := res["stale"].(bool)
+			res["alarm"] = caught && !stale
+			delete(res, "caught")
+			adjunct = append(adjunct, res)
+			if caught && !stale {
+				violations++
+				rp := writeReplay(verifDir, prop, "selftest-benign-"+m, res)
+				fmt.Printf("SELFTEST benign change %s raised an alarm (%v)\n", m, res["by"])
 				fmt.Printf("VIOLATION property=%s replay=%s no-failing-input-found\n", prop, rp)
 			}
 		}
